@@ -246,6 +246,111 @@ theorem wrapLoop_content (w : Nat) (hw : 1 ≤ w) :
         rw [hrec, this]; simp [nonblank]
       · rw [List.flatten_cons, nonblank_append, hrec]
 
+/-! ### no empty line -/
+
+theorem splitChunks_ne (s : Str) : ∀ c ∈ splitChunks s, c ≠ [] := by
+  induction s with
+  | nil => intro c h; simp [splitChunks] at h
+  | cons x r ih =>
+    intro c h
+    rw [splitChunks] at h
+    split at h
+    · rename_i d ds cs heq
+      rw [heq] at ih
+      split at h
+      · rcases List.mem_cons.mp h with h | h
+        · subst h; simp
+        · exact ih c (List.mem_cons_of_mem _ h)
+      · rcases List.mem_cons.mp h with h | h
+        · subst h; simp
+        · exact ih c h
+    · rcases List.mem_cons.mp h with h | h
+      · subst h; simp
+      · exact ih c h
+
+theorem dropTrailingBlank_ne (line : List Str) (h : ∀ c ∈ line.dropLast, c ≠ []) :
+    ∀ c ∈ dropTrailingBlank line, c ≠ [] := by
+  unfold dropTrailingBlank
+  split
+  · rename_i l hl
+    split
+    · exact h
+    · rename_i hb
+      obtain ⟨ys, rfl⟩ := List.getLast?_eq_some_iff.mp hl
+      intro c hc
+      rcases List.mem_append.mp hc with hc | hc
+      · exact h c (by simpa using hc)
+      · simp at hc; subst hc
+        intro he; subst he; simp [isBlankChunk] at hb
+  · rename_i hn
+    intro c hc
+    have : line = [] := by simpa using hn
+    subst this; simp at hc
+
+theorem breakLong_ne (w : Nat) (line cs : List Str)
+    (h1 : ∀ c ∈ line, c ≠ []) (h2 : ∀ c ∈ cs, c ≠ []) :
+    (∀ c ∈ (breakLong w line cs).1.dropLast, c ≠ []) ∧ (∀ c ∈ (breakLong w line cs).2, c ≠ []) := by
+  cases cs with
+  | nil =>
+    simp only [breakLong]
+    exact ⟨fun c hc => h1 c (List.dropLast_subset _ hc), h2⟩
+  | cons d r =>
+    rw [breakLong]
+    split
+    · rename_i hlong
+      constructor
+      · intro c hc
+        simp only [List.dropLast_concat] at hc
+        exact h1 c hc
+      · intro c hc
+        rcases List.mem_cons.mp hc with hc | hc
+        · subst hc
+          intro he
+          have := congrArg List.length he
+          simp only [List.length_drop, List.length_nil] at this
+          omega
+        · exact h2 c (List.mem_cons_of_mem _ hc)
+    · exact ⟨fun c hc => h1 c (List.dropLast_subset _ hc), h2⟩
+
+theorem wrapLoop_ne (w : Nat) :
+    ∀ (f : Nat) (first : Bool) (cs : List Str), (∀ c ∈ cs, c ≠ []) →
+      ∀ l ∈ wrapLoop w f first cs, l ≠ [] := by
+  intro f
+  induction f with
+  | zero => intro first cs _ l hl; simp [wrapLoop] at hl
+  | succ f ih =>
+    intro first cs hne l hl
+    cases cs with
+    | nil => simp [wrapLoop] at hl
+    | cons c rest =>
+      rw [wrapLoop] at hl
+      generalize hch : (if (!first && isBlankChunk c) = true then rest else c :: rest) = chunks1 at hl
+      have hne1 : ∀ x ∈ chunks1, x ≠ [] := by
+        rw [← hch]; split
+        · exact fun x hx => hne x (List.mem_cons_of_mem _ hx)
+        · exact hne
+      have happ := fillLine_append w chunks1 0
+      have hp1 : ∀ x ∈ (fillLine w 0 chunks1).1, x ≠ [] :=
+        fun x hx => hne1 x (by rw [← happ]; exact List.mem_append_left _ hx)
+      have hp2 : ∀ x ∈ (fillLine w 0 chunks1).2, x ≠ [] :=
+        fun x hx => hne1 x (by rw [← happ]; exact List.mem_append_right _ hx)
+      obtain ⟨hq1, hq2⟩ := breakLong_ne w _ _ hp1 hp2
+      have hline := dropTrailingBlank_ne _ hq1
+      generalize (breakLong w (fillLine w 0 chunks1).1 (fillLine w 0 chunks1).2) = q at *
+      split at hl
+      · exact ih _ _ hq2 l hl
+      · rename_i hemp
+        rcases List.mem_cons.mp hl with h | h
+        · subst h
+          cases hd : dropTrailingBlank q.1 with
+          | nil => simp [hd] at hemp
+          | cons x xs =>
+            have := hline x (by rw [hd]; exact List.mem_cons_self)
+            intro he
+            simp only [List.flatten_cons, List.append_eq_nil_iff] at he
+            exact this he.1
+        · exact ih _ _ hq2 l h
+
 /-! ### the contract -/
 
 /-- every returned line fits the width -/
@@ -258,6 +363,10 @@ theorem wrap_content (w : Nat) (hw : 1 ≤ w) (text : Str) :
     nonblank (wrap w text).flatten = nonblank text := by
   unfold wrap
   rw [wrapLoop_content w hw _ _ _ (Nat.lt_succ_self _), flatten_splitChunks, nonblank_munge]
+
+/-- no returned line is empty -/
+theorem wrap_nonempty_lines (w : Nat) (text : Str) : ∀ l ∈ wrap w text, l ≠ [] :=
+  wrapLoop_ne w _ _ _ (splitChunks_ne _)
 
 theorem wrapE_ok (w : Nat) (hw : 1 ≤ w) (text : Str) : wrapE w text = .ok (wrap w text) := by
   unfold wrapE; split
